@@ -278,7 +278,38 @@ def basis():
     return BASIS
 
 
+def w_all24(arg):
+    """the REAL uplink_icao over a whole residue class of the 24-bit address space on one UF4 carrier (thorough: every
+    class, i.e. all 2^24 addresses): the linear model says nothing about an address the code singles out through a value
+    it computes (a fast path keyed on a checksum, say) - only running the implementation on it does."""
+    lo, hi, step, off = arg
+    acc = Acc()
+    d0 = (4 << 27) | 0x0155555
+    p0 = R.parity(d0, 32)
+    img = []
+    for i in range(24):
+        prod = R.G << i
+        img.append((prod >> 24) & 0xFFFFFF)
+    f = U.uplink_icao
+    for a in range(lo + off, hi, step):
+        top = 0
+        x, i = a, 0
+        while x:
+            if x & 1:
+                top ^= img[i]
+            x >>= 1
+            i += 1
+        msg = "%08X%06X" % (d0, p0 ^ top)
+        acc.n += 1
+        if f(msg) != "%06X" % a:
+            acc.bad("uplink_icao:wrong_address:len56:address_sweep", {"kind": "addr", "msg": msg, "addr": a})
+    acc.out.add(("all24", lo))
+    return acc.res()
+
+
 def w_any(t):
+    if t[0] == "all24":
+        return w_all24(t[1])
     basis()
     return {"lin": w_lin, "model": w_model, "addr": w_addr, "fields": w_fields, "misc": w_misc}[t[0]](t[1])
 
@@ -302,6 +333,9 @@ def run(ctx):
     tasks += [("addr", (c, ctx.seed)) for c in chunks(addrs, 1)]
     for ufv in (4, 5, 20, 21):
         tasks += [("fields", (ufv, list(c))) for c in chunks(range(32), 2)]
+    step = 1 if ctx.thorough else 64
+    tasks += [("all24", (lo, lo + (1 << 19), step, (ctx.seed % step) if step > 1 else 0)) for lo in range(0, 1 << 24, 1 << 19)]
+    ctx.cov["real_address_sweep"] = "all 2^24 addresses" if ctx.thorough else "addresses congruent to %d mod 64 (2^18 of 2^24)" % (ctx.seed % 64)
     ctx.cov["states"] = 0
     ctx.cov["transitions"] = 0
     ctx.pmap(w_any, tasks)
@@ -329,7 +363,8 @@ def replay(case):
         return w_model(None)["viols"]
     if k == "addr":
         r = call(U.uplink_icao, case["msg"])
-        return [] if r == ("ok", "%06X" % case["addr"]) else [("uplink_icao:wrong_address:len%d" % (len(case["msg"]) * 4), case)]
+        sg = "uplink_icao:wrong_address:len%d" % (len(case["msg"]) * 4)
+        return [] if r == ("ok", "%06X" % case["addr"]) else [(sg, case), (sg + ":address_sweep", case)]
     if k == "uf11":
         s = judge_11(case["msg"], *case["f"])
         return [(s, case)] if s else []
